@@ -5,6 +5,9 @@ package main
 
 import (
 	"fmt"
+	"strings"
+	"sync"
+	"sync/atomic"
 
 	"verifharness/lib/dbh"
 	"verifharness/lib/vlib"
@@ -17,7 +20,7 @@ func main() {
 	w.Compact, w.Delete, w.Reopen, w.Txn = 6, 25, 1, 1
 	dbh.Main(dbh.MainCfg{
 		Property:   "C03",
-		Rule:       "random DB programs with up to 12 simultaneously live snapshots and 4 pinned iterators at random positions between overwrites and deletes of the same keys, interleaved with forced flushes and CompactRange; each snapshot keeps a frozen copy of the Go map and is compared (all pool keys + full scan) at every snapshot read, at checkpoints and before release; pinned iterators are stepped between compactions and compared with their creation-time list; non-trivial = a table compaction ran while >=1 snapshot was live",
+		Rule:       "random DB programs with up to 12 simultaneously live snapshots and 4 pinned iterators at random positions between overwrites and deletes of the same keys, interleaved with forced flushes and CompactRange; each snapshot keeps a frozen copy of the Go map and is compared (all pool keys + full scan) at every snapshot read, at checkpoints and before release; pinned iterators are stepped between compactions and compared with their creation-time list; non-trivial = a table compaction ran while >=1 snapshot was live; plus a directed family (dbh.RunDeep): three or more levels, waves of Deletes over values stored two or more levels further down, a snapshot taken after them, a few more writes, DB.CompactRange under ONE transient table write/sync/create fault (retried builder), healing, settling: the snapshot and the live view must show exactly their oracles (all keys + full scan), again after a final fault-free range compaction",
 		Header:     "From GL Require Import Corr.C03Run.",
 		QuickProgs: 560, QuickOps: 320, ThorProgs: 2000, ThorOps: 1200,
 		Weights: w, CheckEvery: 8,
@@ -34,7 +37,72 @@ func main() {
 				c.WriteBuffer = 4096
 			}
 		},
+		ReplayOther: replayDeep,
+		Post:        deepFamily,
 	})
+}
+
+// deepFamily: "a snapshot is a frozen view" across a RETRIED table compaction.  dbh.RunDeep builds three or more levels,
+// issues waves of Deletes whose markers end up above values stored two or more levels further down, takes a snapshot
+// (the markers are then at or below the smallest live sequence number, i.e. droppable as soon as the compaction believes
+// that nothing lies below), writes a little more, and runs DB.CompactRange under ONE transient table write/sync/create
+// fault; the builder is re-run from its last snapshot of its own state.  Afterwards, and again after a final fault-free
+// range compaction, the snapshot must show exactly what it showed when it was taken (all keys + full scan), and so must
+// the live view with respect to the oracle.
+func deepFamily(a vlib.Args, res *vlib.Result) {
+	n := 48
+	if a.Thorough() {
+		n = 800
+	} else if strings.Contains(a.Extra, "search") {
+		n = 200
+	}
+	// consecutive seeds give vlib.NewRNG consecutive splitmix states (the same stream shifted by one): spread them first
+	root := vlib.NewRNG((a.Seed + 0xc03d) * 0x2545f4914f6cdd1d)
+	jobs := make(chan dbh.DeepSpec)
+	var wg sync.WaitGroup
+	var nFail int32
+	for w := 0; w < 16; w++ {
+		wg.Add(1)
+		go func() {
+			defer wg.Done()
+			for ds := range jobs {
+				dr := dbh.RunDeep(ds, false)
+				res.Eval(fmt.Sprintf("deep-%d", ds.DeepSeed), dr.Stats["deep_compaction_fault_hits"] > 0)
+				res.Count("deep_scenarios", 1)
+				for k, v := range dr.Stats {
+					res.Count(k, v)
+				}
+				if dr.Failure != "" {
+					res.Count("deep_scenarios_failed", 1)
+					if atomic.AddInt32(&nFail, 1) <= 4 {
+						res.Violate(dr.Failure+fmt.Sprintf(" [deep-tree scenario seed %d]", ds.DeepSeed), ds)
+					}
+				}
+			}
+		}()
+	}
+	for i := 0; i < n && atomic.LoadInt32(&nFail) < 4; i++ {
+		jobs <- dbh.DeepSpec{DeepSeed: root.Uint64() >> 1, Snapshot: true, NoDrive: true}
+	}
+	close(jobs)
+	wg.Wait()
+}
+
+func replayDeep(path string, res *vlib.Result) bool {
+	ds, ok := dbh.LoadDeepSpec(path)
+	if !ok {
+		return false
+	}
+	for i := 0; i < 3; i++ {
+		res.Eval(fmt.Sprintf("deep-replay%d", i), true)
+		if dr := dbh.RunDeep(*ds, false); dr.Failure != "" {
+			fmt.Println("replay fails:", dr.Failure)
+			res.Violate(dr.Failure, ds)
+			return true
+		}
+	}
+	fmt.Println("replay passes")
+	return true
 }
 
 // longHeld: "however long it is held" — an iterator (and a snapshot) created over a multi-table tree, parked on its
